@@ -5,7 +5,7 @@ from driver.common import Case
 
 ID = "C14"
 NEEDS_BINARY = True
-LEAN_MODULES = ["Gv.Props.C14"]
+LEAN_MODULES = ["Gv.Props.C14", "Gv.Props.C14Pssm"]
 REQUIRED_THEOREMS = ["Gv.Props.C14." + n for n in [
     "maxLoop_eq_foldl", "maxLoop_perm", "maxLoop_is_argmax", "charStatsSite_error_iff", "entropy_error_iff",
     "charStatsSeq_error_iff", "iupacToInt_matches_sets", "equalOrCompatible_spec", "equalOrCompatible_error",
@@ -19,7 +19,14 @@ REQUIRED_THEOREMS = ["Gv.Props.C14." + n for n in [
     # MaxCharStats / Consensus on the actual count entries of a column (first-appearance order = some map order)
     "countUpper_eq_tally", "countUpper_keys_nodup", "countUpper_lookup", "countUpper_pos",
     "maxCharSite_order_independent", "maxCharSite_is_argmax",
-    "countProfile_panic_iff", "countProfile_eq_spec", "profileCount_eq_spec", "profileCountsAt_error_iff"]]
+    "countProfile_panic_iff", "countProfile_eq_spec", "profileCount_eq_spec", "profileCountsAt_error_iff",
+    # the counter loops with a count profile (three slices: unique / new / both) = the naive recounts, all inputs
+    "numGapsUniqueProf_eq_spec", "numMutationsUniqueProf_eq_spec", "numGapsUniqueProf_first_eq_nil"]] + [
+    # Pssm over the reals (Model/Pssm.lean, generic in the numeric type; Mathlib-importing module)
+    "Gv.Props.C14Pssm." + n for n in [
+    "pssm_panic_iff", "pssm_err_iff", "pssm_shape", "pssm_counts", "pssm_freq", "pssm_freq_column_sum",
+    "pssm_freq_column_sums_to_one", "pssm_freq_column_sum_one_iff", "pssm_freq_column_with_gap_sums_below_one",
+    "pssm_unif", "pssm_data", "pssm_logo", "pssm_log"]]
 LEVEL_TEXT = ("Lean theorems: MaxCharStats' selection loop returns the same result for EVERY iteration order of the count entries "
               "(Go map order = arbitrary permutation) and equals the naive argmax with the smallest-byte tie rule, also stated on the actual "
               "count entries of a column (distinct keys, naive counts, positive); every counting "
@@ -27,10 +34,17 @@ LEVEL_TEXT = ("Lean theorems: MaxCharStats' selection loop returns the same resu
               "CharStatsSeq/Site, NbVariableSites, InformativeSites, the two counters of AvgAllelesPerSite, CountDifferences, unique "
               "gaps / mutations per sequence, number and list of mutations vs a reference incl. IUPAC compatibility on base sets) is "
               "proved equal to its naive definition in Spec/Stats.lean for ALL inputs, index errors exactly outside [0,n) / [0,L); "
+              "the same for the three counter slices (unique / new / both) of the unique gap / mutation counters with a count "
+              "profile (length-check error, index panic and the naive recounts: numGapsUniqueProf_eq_spec, "
+              "numMutationsUniqueProf_eq_spec); Pssm is modelled stage by stage, generic in the numeric type, and over the reals every "
+              "entry is proved to be what the definition says on the naive counts: plain counts (+ pseudo-count), frequency "
+              "(count + pseudo) / (N + K pseudo) whose columns sum to 1 exactly when every row holds an alphabet character, uniform, "
+              "data and logo normalisations in closed form, log = log2 of the entry, error / panic conditions; "
               "tied to /repo by differential correspondence where every call is repeated (200x for map-ordered code) inside one "
               "process and nondeterminism, site indices in [-1, L] and the naive definitions are checked on the implementation's output.")
-LEVEL_NOTE = ("Trusted: Lean kernel; harness/oracle/driver. Float-valued statistics (entropy, alleles per site, PSSM) are compared "
-              "with relative tolerance 1e-12 and exact NaN/Inf class: math.Log rounding is not modelled.")
+LEVEL_NOTE = ("Trusted: Lean kernel; harness/oracle/driver. Float-valued statistics are compared by exact NaN/Inf class and relative "
+              "tolerance (entropy, alleles per site: 1e-12 by the driver; PSSM: 1e-9 by the oracle, which echoes the implementation's "
+              "text when it agrees): math.Log rounding is not modelled.")
 TECHNIQUE = "Lean 4 proof (order-independence for all permutations, list induction) + differential correspondence with repeated calls"
 RULE = ("alignments of 1..6 rows x 1..6 columns over small alphabets with ties for the most frequent character, all-gap and all-N "
         "columns, mixed case, specials; all site indices in [-1, L]; both ignore options; every map-ordered call repeated 200 "
@@ -38,10 +52,14 @@ RULE = ("alignments of 1..6 rows x 1..6 columns over small alphabets with ties f
 PARTIAL = ["Entropy: the occurrence counts, the summation order and the error/NaN cases are proved (entropy_eq_spec); the float sum itself "
            "(math.Log) is compared with tolerance 1e-12, rounding is not modelled; AvgAllelesPerSite: the two integer counters are "
            "proved, the float64 quotient is compared with tolerance",
-           "Pssm is not modelled: the harness checks that repeated calls agree and, without normalisation / pseudo-count / "
-           "logarithm, that the entries are the naive per-site counts of the alphabet characters (tag pssm)",
-           "the profile-dependent outputs (numnew, numboth) of the unique gap / mutation counters have naive definitions in "
-           "Spec/Stats.lean that serve as model and predicate (tag uniquesprof); no Lean theorem about the Go loops with a profile",
+           "Pssm: theorems are over the reals (Props/C14Pssm.lean); float rounding and the last place of math.Log are not modelled: "
+           "the Float evaluation of the same model is compared with the implementation's bit patterns within relative 1e-9 "
+           "(exact NaN / Inf class), and the oracle re-evaluates the naive count / frequency definition on the implementation's answer",
+           "Pssm divides by the number of sequences: a frequency-normalised column that holds a gap / N / X / other symbol sums to "
+           "LESS than 1 (pssm_freq_column_with_gap_sums_below_one, pssm_freq_column_sum_one_iff); a negative pseudo-count enters the "
+           "denominators but is not added to the cells (model = code; theorems state it through `added`)",
+           "Pssm on an alignment without sequences is a run-time panic (makeslice with length -1; pssm_panic_iff): not generated by "
+           "the quick/thorough generators; replay: `pssm<TAB>1<TAB>_<TAB>0<TAB>0<TAB>1<TAB>1` -> verdict fail:pssm-crash",
            "the model is stated for ASCII residues: CharStats / InformativeSites index 130-entry slices with unicode.ToUpper(rune) "
            "(bytes >= 130 panic in Go; only NumMutationsUniquePerSequence models that panic explicitly)",
            "CountDifferences on an alignment without sequences and CountProfile.CountsAt(len) were run-time panics: repaired "
@@ -104,8 +122,10 @@ def _gen_core(rng, tier):
         yield Case("profile", [alpha, rs, ch, rng.choice([-1, 0, L - 1, L, rng.randint(0, L)])], ch < 130, "profile")
         # unique gaps / mutations with a count profile built from a second alignment (same length, sometimes not)
         yield Case("uniquesprof", [alpha, rs, rows_str(prof_al(rng, alpha, L))], n > 2, "uniquesprof")
-        # Pssm: repeated calls agree; plain counts without normalisation
-        lg, ps, nm = rng.choice([(0, "0", 0), (0, "0", 0), (rng.randint(0, 1), rng.choice(["0", "1/2", "1"]), rng.randint(0, 4))])
+        # Pssm: the model (Gv.Model.pssm at Float) within tolerance; repeated calls agree; the five normalisations, an
+        # unknown one (error), logarithm, pseudo-counts (also negative: added to the denominators only)
+        lg, ps, nm = rng.choice([(0, "0", 0), (0, "0", 1), (rng.randint(0, 1), rng.choice(["0", "1/2", "1", "1/3", "3", "-1/2"]),
+                                                          rng.choice([0, 1, 1, 2, 3, 4, 4, 5, -1]))])
         yield Case("pssm", [alpha, rs, lg, ps, nm, 20], True, "pssm")
     # columns with several gaps that the profile does not have (every row's `numnew` must count them)
     for _ in range(N // 2):
@@ -204,6 +224,23 @@ def shrink(c):
 
 # ---- command-line glue: a multi-alignment Phylip input must be treated as its alignments one by one (`detmulti`) ----
 MULTI_CMDS = [['consensus'], ['consensus', '--ignore-gaps'], ['compute', 'pssm', '-n', '1'], ['stats', 'char'], ['stats', 'alleles'], ['stats']]
+
+
+def check(tier, seed):
+    """generic flow with the memoising axiom audit (Audit/AuditMemo.lean: same output as Audit/Audit.lean; the Pssm
+    theorems import Mathlib, whose dependency cone Audit.lean would re-traverse per theorem)"""
+    import sys
+    from driver import common
+
+    def audit_memo(modules):
+        rc, out = common.run(["lake", "env", "lean", "--run", "Audit/AuditMemo.lean"] + modules, cwd=common.LEAN, timeout=1200)
+        ths = []
+        for m in common.re.finditer(r"THEOREM (\S+) (\S+) axioms=\[(.*?)\] (OK|FORBIDDEN)", out):
+            axs = [a.strip() for a in m.group(3).split(",") if a.strip()]
+            ths.append({"module": m.group(1), "name": m.group(2), "axioms": axs, "ok": m.group(4) == "OK"})
+        return rc, ths, out
+    common.audit = audit_memo
+    return common.generic_check(sys.modules[__name__], tier, seed)
 
 
 def gen(rng, tier):
